@@ -121,5 +121,15 @@ def r3_version_blind(ck, F):
     ck.ob(R, "getter-not-used-internally", not callers, f"Reader::file_version is not called by library code ({callers})", config=F.config)
     # the cursor is configured from the other metadata fields only
     rcn = F.body(A("rc_prefix") + "new")
-    used = sorted({callee_name(c).split("::")[-1] for s, c, t in rcn.calls() if callee_name(c).startswith("reader::Reader")})
+    # ... through the accessors or straight from reader.metadata
+    used = set()
+    for s, c, t in rcn.calls():
+        n = callee_name(c)
+        if n.startswith("reader::Reader::<R>::") and F.has_body(n):
+            r = F.body(n).expr_at_return().strip()
+            used.add(r.x["name"] if r.k == "field" and is_self_field(r.a[0], "metadata") else n.split("::")[-1] + "()")
+    for fld in F.adts[A("meta_struct")]["variants"][0]["fields"]:
+        if any(b.path == rcn.path for b, s_, st in field_reads(F, A("meta_struct"), fld["name"])):
+            used.add(fld["name"])
+    used = sorted(used)
     ck.ob(R, "cursor-configured-without-version", used == ["compression_type", "index_block_offset", "index_levels"], f"ReaderCursor::new consults {used}", rcn)
